@@ -179,6 +179,76 @@ def scripted_specs(scratch: Path, tier: str, seed: int, v=None):
     return specs, len(res.printed)
 
 
+SIM_INS_CFG = """SPECIFICATION SimSpec
+CONSTANTS
+  NInit = 3
+  NLive = 2
+  DrawConstant = TRUE
+  Iid = FALSE
+  MinIt = {minit}
+  MaxIt = {maxit}
+  NCrit = {ncrit}
+  StopAny = {any}
+  MaxStops = 0
+ACTION_CONSTRAINT SimConstraintA
+CHECK_DEADLOCK FALSE
+"""
+
+
+def ins_scripted_specs(scratch: Path, tier: str, seed: int, v=None):
+    """Every behaviour of SimImportanceSampler.tla (which criteria are met after each iteration, until the
+    loop ends) as a scripted replay through the real ImportanceNestedSampler."""
+    import random
+
+    from .nsruns import ins_spec
+
+    rng = random.Random(seed + 77)
+    behaviours = []
+    n_cfg = 0
+    for any_ in (True, False):
+        for minit in (0, 2):
+            for ncrit, maxit in ((2, 3), (1, 4)) if tier == "quick" else ((2, 4), (1, 5), (3, 3)):
+                cfg = scratch / f"sim_ins_{n_cfg}.cfg"
+                cfg.write_text(SIM_INS_CFG.format(minit=minit, maxit=maxit, ncrit=ncrit,
+                                                  any="TRUE" if any_ else "FALSE"))
+                res = run_tlc("SimImportanceSampler", str(cfg), metadir=scratch / f"m_sim_ins_{n_cfg}", workers=1,
+                              timeout=1200, collect_prefix="SIM")
+                require_ok(res, f"SimImportanceSampler.tla any={any_} minit={minit} ncrit={ncrit}")
+                seen = set()
+                for r in res.printed:
+                    key = json.dumps(r["hist"])
+                    if key in seen:
+                        continue
+                    seen.add(key)
+                    behaviours.append({"any": any_, "minit": minit, "maxit": maxit, "ncrit": ncrit,
+                                       "met": r["hist"], "it": int(r["it"])})
+                n_cfg += 1
+    total = len(behaviours)
+    rng.shuffle(behaviours)
+    # keep the replayed sample balanced over configurations and stop reasons
+    limit = 24 if tier == "quick" else 400
+    behaviours.sort(key=lambda b: (b["it"] == b["maxit"], len(b["met"])))
+    picked = behaviours[:: max(1, len(behaviours) // limit)][:limit]
+    names = ["ess", "ratio", "log_dZ", "Z_err", "fractional_error", "ratio_ns"]
+    specs = []
+    for i, b in enumerate(picked):
+        crit = rng.sample(names, b["ncrit"])
+        tol = [round(rng.uniform(0.5, 3.0), 2) for _ in crit]
+        kw = dict(stopping_criterion=crit if b["ncrit"] > 1 else crit[0],
+                  tolerance=tol if b["ncrit"] > 1 else tol[0],
+                  check_criteria="any" if b["any"] else "all", max_iteration=b["maxit"],
+                  training_config={"max_epochs": 5, "patience": 2})
+        if b["minit"]:
+            kw["min_iteration"] = b["minit"]
+        sp = ins_spec("gauss2", seed * 100 + i, 60, run_again=1, **kw)
+        sp["extra"] = {"ins_script": {"met": b["met"], "it": b["it"]}}
+        specs.append(sp)
+    if v is not None:
+        v.note(f"SimImportanceSampler.tla: {n_cfg} configurations, {total} distinct behaviours of the stopping "
+               f"rule, {len(specs)} replayed through the real ImportanceNestedSampler")
+    return specs, total
+
+
 def predict_ckpt_on_training(scratch: Path):
     """NestedSampler.tla with CkptOnTraining = TRUE (what the code allows): which invariant goes."""
     cfg = scratch / "ns_ckpt_on_training.cfg"
@@ -190,7 +260,7 @@ def predict_ckpt_on_training(scratch: Path):
 
 def run_property(prop: str, tier: str, specs, *, level="model_checking", crash_is_violation=False, scripted=False,
                  predict_mid_ckpt=False,
-                 extra_cov=None, also=(), sig_of=None, capit=0, note="", ins_specs=()):
+                 extra_cov=None, also=(), sig_of=None, capit=0, note="", ins_specs=(), ins_scripted=False):
     """Run the corpus, validate, report P-failures of `prop` (and of `also`)."""
     seed = seed_from_env()
     v = Verdict(prop, tier, seed, level)
@@ -245,6 +315,11 @@ def run_property(prop: str, tier: str, specs, *, level="model_checking", crash_i
 
             ist, itr, ncfg = ins_model_check(scratch, tier)
             v.note(f"ImportanceSampler.tla: {ncfg} configurations, {ist} states, {itr} transitions")
+            n_ins_scripted = n_ins_behaviours = 0
+            if ins_scripted:
+                isp, n_ins_behaviours = ins_scripted_specs(scratch, tier, seed, v)
+                n_ins_scripted = len(isp)
+                ins_specs = list(ins_specs) + isp
             ihs = run_corpus(list(ins_specs), scratch / "ins_runs")
             icrashed = [h for h in ihs if h["codes"][-1] != 0]
             for h in icrashed:
@@ -260,6 +335,27 @@ def run_property(prop: str, tier: str, specs, *, level="model_checking", crash_i
                 else:
                     v.mismatch("run did not complete: " + msg)
             irecords, ins_stats, ipacked = validate_ins(ihs, scratch)
+            # spec -> code: the scripted behaviours of the stopping rule end where the specification says
+            n_ins_replay_ok = 0
+            for hi, evs_ in enumerate(ipacked):
+                for e_ in evs_:
+                    if e_["ev"] != "ins_replay":
+                        continue
+                    good = (e_["iterations"] == e_["expected_it"] and e_["overrun"] == 0 and e_["finalised"]
+                            and e_["calls"] == e_["expected_it"])
+                    if good:
+                        n_ins_replay_ok += 1
+                    elif prop == "C15" or "C15" in also:
+                        h = ihs[hi]
+                        v.violation("ins_scripted_stop",
+                                    f"C15 scripted replay of SimImportanceSampler.tla: the specification's loop ends "
+                                    f"after {e_['expected_it']} iterations, the real ImportanceNestedSampler ran "
+                                    f"{e_['iterations']} (criterion calls {e_['calls']}, beyond the script "
+                                    f"{e_['overrun']}, finalised={e_['finalised']}) with "
+                                    f"{json.dumps(h['spec']['kwargs'])[:300]} script={json.dumps(h['spec']['extra'])}",
+                                    {"spec": h["spec"], "codes": h["codes"], "replay_event": e_})
+            ins_stats.update(ins_scripted_behaviours=n_ins_behaviours, ins_scripted_replayed=n_ins_scripted,
+                             ins_scripted_equal_to_spec=n_ins_replay_ok)
             ins_stats.update(model_states=ist, model_transitions=itr, histories=len(ihs),
                              histories_not_completed=len(icrashed),
                              processes=sum(len(h["codes"]) for h in ihs))
